@@ -29,6 +29,7 @@ type Frame struct {
 	reach     map[*ssa.BasicBlock]string
 	edgeCond  map[edgeKey]string
 	callBlock *ssa.BasicBlock // block of the call site (inlined activations)
+	loops     map[*ssa.BasicBlock]*loopInfo
 }
 
 type closureRec struct {
@@ -71,6 +72,7 @@ type FnEnc struct {
 	heldPred      string          // predicate "this cell is a lock ghost" (see heldCellPred)
 	heldPredDone  bool
 	curCalleeFull string            // full name of the callee whose call-site assertions are being emitted
+	rangeStartHas map[string]string // visited-set key -> which keys the ranged map had at the start
 	eqState       *State            // state in which == on interface values loads boxed contents
 	topCallKey    string            // key of the last call numbered in the function under contract itself
 	callStates    map[string]*State // "<short name>#<ordinal>" -> state right after that call
@@ -725,6 +727,7 @@ func (f *FnEnc) encodeBody(fr *Frame, entry *State, guard string) []retRec {
 	}
 	order := topoOrder(fn)
 	loops := findLoops(fn)
+	fr.loops = loops
 	for _, li := range loops {
 		for b := range li.body {
 			for _, in := range b.Instrs {
